@@ -26,6 +26,7 @@ class Unsupported(Exception):
     pass
 
 
+NOT_INLINED = {"c_task_reschedule", "future_find_task_callback", "task_throw", "_task_reinsert"}
 RUNTIME_ERRORS = [("done", "done"), ("cancelled", "cancelled"), ("self", "self")]
 OPT_KINDS = {"optfut": "fut", "optstep": "step", "opthandle": "handle", "optnat": "nat"}
 TRUTHY_KINDS = {"fut", "step", "handle", "wakeup"}     # objects that are always true
@@ -53,11 +54,25 @@ def _is_none(e):
 class Fn:
     """translator of one function body"""
 
-    def __init__(self, known_calls, consts, result="state"):
+    def __init__(self, known_calls, consts, result="state", module=None):
         self.known = known_calls      # python function name -> (lean name, arg kinds, async?)
         self.consts = consts          # module constants -> lean Bool term
         self.result = result          # "state": Except E State ; "susp": Except E (State × Susp)
         self.fresh = 0
+        self.depth = 0
+        # module-level synchronous functions that may be inlined at their call sites
+        self.helpers = {}
+        for node in (module.body if module is not None else []):
+            if isinstance(node, ast.FunctionDef) and node.name not in NOT_INLINED:
+                self.helpers[node.name] = node
+
+    def top(self, stmts, env, ind):
+        """translate a whole function body; falling off the end / `return` = success"""
+        def done(ret, ind2):
+            if self.result != "state":
+                raise Unsupported("an async prefix returned without awaiting")
+            return f"{ind2}.ok s"
+        return self.block(stmts, env, ind, done)
 
     # ---------------------------------------------------------------- expressions
     def val(self, e, env):
@@ -98,6 +113,14 @@ class Fn:
                 if k != "task":
                     raise Unsupported("getattr(.., '_Task__step', None) of a non-task")
                 return ("optstep", f"(stepMethod s {t})")
+            if isinstance(f, ast.Attribute) and f.attr == "task_key" and len(e.args) == 1 and not e.keywords \
+                    and self.val(f.value, env)[0] == "schedloop":
+                k, t = self.val(e.args[0], env)
+                if k != "task":
+                    raise Unsupported("task_key of a non-task")
+                return ("taskkey", t)
+            if isinstance(f, ast.Attribute) and f.attr == "current_task" and not e.args and not e.keywords:
+                return ("curtask", "(current s)")
             if isinstance(f, ast.Attribute) and f.attr == "get_loop" and not e.args:
                 if self.val(f.value, env)[0] != "task":
                     raise Unsupported("get_loop() of a non-task")
@@ -143,9 +166,14 @@ class Fn:
                     return f"{t}.isSome" if neg else f"{t}.isNone"
                 if k in TRUTHY_KINDS:
                     return "true" if neg else "false"
-            if isinstance(b, ast.Call) and isinstance(b.func, ast.Attribute) and b.func.attr == "current_task" \
-                    and not b.args and self.val(a, env)[0] == "task":
-                r = f"(current s == some {self.val(a, env)[1]})"
+            try:
+                ka, kb = self.val(a, env), self.val(b, env)
+            except Unsupported:
+                ka = kb = (None, None)
+            if ka[0] == "curtask" and kb[0] == "task":
+                ka, kb = kb, ka
+            if ka[0] == "task" and kb[0] == "curtask":
+                r = f"({kb[1]} == some {ka[1]})"
                 return f"(!{r})" if neg else r
             raise Unsupported(f"identity test {ast.dump(e)[:80]}")
         if isinstance(e, ast.Call):
@@ -183,39 +211,72 @@ class Fn:
         return f"{base}_{self.fresh}"
 
     # ---------------------------------------------------------------- statements (CPS)
-    def ok(self):
-        return "(.ok s)" if self.result == "state" else None
-
-    def block(self, stmts, env, ind):
+    def block(self, stmts, env, ind, cont):
+        """statements in continuation-passing style; `cont(ret, ind)` is what happens when the function
+        returns `ret` = (kind, lean term) - for an inlined helper: the rest of its caller"""
         if not stmts:
-            if self.result != "state":
-                raise Unsupported("an async prefix fell off its end without awaiting")
-            return f"{ind}.ok s"
+            return cont(("none", "none"), ind)
         st, rest = stmts[0], stmts[1:]
         p = ind
         if isinstance(st, ast.Expr) and isinstance(st.value, ast.Constant) and isinstance(st.value.value, str):
-            return self.block(rest, env, ind)
+            return self.block(rest, env, ind, cont)
         if isinstance(st, ast.Pass):
-            return self.block(rest, env, ind)
+            return self.block(rest, env, ind, cont)
         if isinstance(st, ast.Raise):
             return f"{p}.error (.{self.error_of(st)}, s)"
-        if isinstance(st, ast.Return) and st.value is None and self.result == "state":
-            return f"{p}.ok s"
+        if isinstance(st, ast.Return):
+            if st.value is None:
+                return cont(("none", "none"), ind)
+            if isinstance(st.value, ast.Call) and isinstance(st.value.func, ast.Name) \
+                    and st.value.func.id in self.helpers:
+                return self.inline(st.value, env, ind, cont)
+            return cont(self.val(st.value, env), ind)
         if isinstance(st, ast.Assert):
-            return (f"{p}if {self.cond(st.test, env)} then\n{self.block(rest, env, ind + '  ')}\n"
+            return (f"{p}if {self.cond(st.test, env)} then\n{self.block(rest, env, ind + '  ', cont)}\n"
                     f"{p}else\n{p}  .error (.assertion, s)")
         if isinstance(st, ast.If):
-            return self.if_(st, rest, env, ind)
+            return self.if_(st, rest, env, ind, cont)
         if isinstance(st, (ast.Assign, ast.AnnAssign)):
             tgt = st.targets[0] if isinstance(st, ast.Assign) else st.target
             if isinstance(st, ast.Assign) and len(st.targets) != 1:
                 raise Unsupported("chained assignment")
-            return self.assign(tgt, st.value, rest, env, ind)
+            return self.assign(tgt, st.value, rest, env, ind, cont)
         if isinstance(st, ast.Expr) and isinstance(st.value, ast.Await):
             return self.await_(st.value.value, rest, env, ind)
         if isinstance(st, ast.Expr) and isinstance(st.value, ast.Call):
-            return self.call_stmt(st.value, rest, env, ind)
+            return self.call_stmt(st.value, rest, env, ind, cont)
         raise Unsupported(f"statement {type(st).__name__}: {ast.dump(st)[:80]}")
+
+    def inline(self, call, env, ind, cont):
+        """a call of a module-level helper: translate its body here, its parameters bound to the
+        arguments, `return v` continuing with `cont(v)`, `raise` ending the caller as well"""
+        fn = self.helpers[call.func.id]
+        if self.depth >= 4:
+            raise Unsupported(f"helper calls nested too deeply at {fn.name}")
+        a = fn.args
+        if a.vararg or a.kwarg or a.kwonlyargs or a.posonlyargs:
+            raise Unsupported(f"helper {fn.name} with a signature that is not plain positional")
+        params = [x.arg for x in a.args]
+        given = {}
+        if len(call.args) > len(params):
+            raise Unsupported(f"too many arguments for {fn.name}")
+        for name, arg in zip(params, call.args):
+            given[name] = self.val(arg, env)
+        for kw in call.keywords:
+            if kw.arg not in params or kw.arg in given:
+                raise Unsupported(f"keyword argument {kw.arg} of {fn.name}")
+            given[kw.arg] = self.val(kw.value, env)
+        defaults = dict(zip(params[len(params) - len(a.defaults):], a.defaults))
+        for name in params:
+            if name not in given:
+                if name not in defaults:
+                    raise Unsupported(f"missing argument {name} of {fn.name}")
+                given[name] = self.val(defaults[name], {})
+        self.depth += 1
+        try:
+            return self.block(_doc_free(fn), given, ind, cont)
+        finally:
+            self.depth -= 1
 
     def error_of(self, st):
         exc = st.exc
@@ -233,7 +294,7 @@ class Fn:
                 raise Unsupported(f"RuntimeError with an unknown message {msg!r}")
         raise Unsupported(f"raise {ast.dump(st)[:80]}")
 
-    def if_(self, st, rest, env, ind):
+    def if_(self, st, rest, env, ind, cont):
         p = ind
         test = st.test
         then, other = list(st.body) + rest, list(st.orelse) + rest
@@ -254,8 +315,23 @@ class Fn:
             v = self.new(name)
             some_env = {**env, name: (OPT_KINDS[k], v)}
             some_b, none_b = (then, other) if truthy else (other, then)
-            return (f"{p}match {t} with\n{p}| none =>\n{self.block(none_b, env, ind + '  ')}\n"
-                    f"{p}| some {v} =>\n{self.block(some_b, some_env, ind + '  ')}")
+            return (f"{p}match {t} with\n{p}| none =>\n{self.block(none_b, env, ind + '  ', cont)}\n"
+                    f"{p}| some {v} =>\n{self.block(some_b, some_env, ind + '  ', cont)}")
+        # not x or rest / x is None or rest: the same decision as `x and not rest` with the branches swapped
+        if isinstance(test, ast.BoolOp) and isinstance(test.op, ast.Or) and len(test.values) >= 2:
+            f0 = test.values[0]
+            inner = None
+            if isinstance(f0, ast.UnaryOp) and isinstance(f0.op, ast.Not):
+                inner = f0.operand
+            elif isinstance(f0, ast.Compare) and len(f0.ops) == 1 and isinstance(f0.ops[0], ast.Is) \
+                    and _is_none(f0.comparators[0]):
+                inner = f0.left
+            if inner is not None and self.opt_name(inner, env):
+                r = test.values[1:]
+                rest_e = r[0] if len(r) == 1 else ast.BoolOp(op=ast.Or(), values=r)
+                swapped = ast.If(test=ast.BoolOp(op=ast.And(), values=[inner, ast.UnaryOp(op=ast.Not(), operand=rest_e)]),
+                                 body=list(st.orelse) or [ast.Pass()], orelse=list(st.body))
+                return self.if_(swapped, rest, env, ind, cont)
         # x and rest / x is not None and rest  (x an Optional local): inside the body x is the value
         if isinstance(test, ast.BoolOp) and isinstance(test.op, ast.And) and self.opt_name(test.values[0], env):
             name = self.opt_name(test.values[0], env)
@@ -264,13 +340,13 @@ class Fn:
             some_env = {**env, name: (OPT_KINDS[k], v)}
             r = test.values[1:]
             rest_e = r[0] if len(r) == 1 else ast.BoolOp(op=ast.And(), values=r)
-            return (f"{p}match {t} with\n{p}| none =>\n{self.block(other, env, ind + '  ')}\n"
+            return (f"{p}match {t} with\n{p}| none =>\n{self.block(other, env, ind + '  ', cont)}\n"
                     f"{p}| some {v} =>\n{p}  if {self.cond(rest_e, some_env)} then\n"
-                    f"{self.block(then, some_env, ind + '    ')}\n{p}  else\n{self.block(other, env, ind + '    ')}")
-        return (f"{p}if {self.cond(test, env)} then\n{self.block(then, env, ind + '  ')}\n"
-                f"{p}else\n{self.block(other, env, ind + '  ')}")
+                    f"{self.block(then, some_env, ind + '    ', cont)}\n{p}  else\n{self.block(other, env, ind + '    ', cont)}")
+        return (f"{p}if {self.cond(test, env)} then\n{self.block(then, env, ind + '  ', cont)}\n"
+                f"{p}else\n{self.block(other, env, ind + '  ', cont)}")
 
-    def assign(self, tgt, value, rest, env, ind):
+    def assign(self, tgt, value, rest, env, ind, cont):
         p = ind
         if isinstance(tgt, ast.Tuple):
             if isinstance(value, ast.Call) and isinstance(value.func, ast.Name) \
@@ -283,7 +359,7 @@ class Fn:
                     if not isinstance(t, ast.Name):
                         raise Unsupported("tuple target")
                     env2[t.id] = kv
-                return self.block(rest, env2, ind)
+                return self.block(rest, env2, ind, cont)
             raise Unsupported("tuple assignment")
         if isinstance(tgt, ast.Attribute) and isinstance(tgt.value, ast.Name) and tgt.value.id in env \
                 and env[tgt.value.id][0] == "task" and tgt.attr == "_fut_waiter":
@@ -296,9 +372,13 @@ class Fn:
                 w = t
             else:
                 raise Unsupported("_fut_waiter := a non-future")
-            return f"{p}let s := setFutWaiter s {env[tgt.value.id][1]} {w}\n{self.block(rest, env, ind)}"
+            return f"{p}let s := setFutWaiter s {env[tgt.value.id][1]} {w}\n{self.block(rest, env, ind, cont)}"
         if not isinstance(tgt, ast.Name):
             raise Unsupported(f"assignment target {ast.dump(tgt)[:60]}")
+        # x = helper(...): inline, the rest of this function is the continuation of its `return`
+        if isinstance(value, ast.Call) and isinstance(value.func, ast.Name) and value.func.id in self.helpers:
+            return self.inline(value, env, ind,
+                               lambda ret, ind2: self.block(rest, {**env, tgt.id: ret}, ind2, cont))
         # queue_find(task_key(task), remove=True): the one primitive that returns a value *and* changes state
         if isinstance(value, ast.Call) and isinstance(value.func, ast.Attribute) and value.func.attr == "queue_find":
             if self.val(value.func.value, env)[0] != "schedloop":
@@ -309,24 +389,25 @@ class Fn:
             rm = kws.get("remove", args[1] if len(args) > 1 else None)
             if not (isinstance(rm, ast.Constant) and rm.value is True):
                 raise Unsupported("queue_find without remove=True")
-            if not (isinstance(key, ast.Call) and isinstance(key.func, ast.Attribute) and key.func.attr == "task_key"
-                    and len(key.args) == 1 and self.val(key.func.value, env)[0] == "schedloop"):
+            if key is None:
+                raise Unsupported("queue_find without a key")
+            k, t = self.val(key, env)
+            if k != "taskkey":
                 raise Unsupported("queue_find with a key other than task_key(task)")
-            k, t = self.val(key.args[0], env)
-            if k != "task":
-                raise Unsupported("task_key of a non-task")
             r = self.new("found")
-            env2 = {**env, tgt.id: ("opthandle", tgt.id)}
-            return (f"{p}let {r} := queueFindRemove s {t}\n{p}let {tgt.id} := {r}.1\n{p}let s := {r}.2\n"
-                    f"{self.block(rest, env2, ind)}")
+            h = self.new(tgt.id)
+            env2 = {**env, tgt.id: ("opthandle", h)}
+            return (f"{p}let {r} := queueFindRemove s {t}\n{p}let {h} := {r}.1\n{p}let s := {r}.2\n"
+                    f"{self.block(rest, env2, ind, cont)}")
         k, t = self.val(value, env)
-        if k in ("loop", "schedloop", "ctxt", "none"):
-            return self.block(rest, {**env, tgt.id: (k, t)}, ind)
+        if k in ("loop", "schedloop", "ctxt", "none", "taskkey"):
+            return self.block(rest, {**env, tgt.id: (k, t)}, ind, cont)
         if isinstance(value, ast.Name):          # alias
-            return self.block(rest, {**env, tgt.id: (k, t)}, ind)
-        return f"{p}let {tgt.id} := {t}\n{self.block(rest, {**env, tgt.id: (k, tgt.id)}, ind)}"
+            return self.block(rest, {**env, tgt.id: (k, t)}, ind, cont)
+        v = self.new(tgt.id)                     # fresh: an inlined helper must not capture a caller's name
+        return f"{p}let {v} := {t}\n{self.block(rest, {**env, tgt.id: (k, v)}, ind, cont)}"
 
-    def bind(self, call, rest, env, ind, lean, kinds):
+    def bind(self, call, rest, env, ind, lean, kinds, cont):
         p = ind
         if len(call.args) != len(kinds) or call.keywords:
             raise Unsupported(f"call of {lean} with unexpected arguments")
@@ -339,21 +420,23 @@ class Fn:
                 raise Unsupported(f"argument of {lean}: expected {want}, got {k}")
             args.append(t)
         return (f"{p}match {lean} s {' '.join(args)} with\n{p}| .error e => .error e\n{p}| .ok s =>\n"
-                f"{self.block(rest, env, ind + '  ')}")
+                f"{self.block(rest, env, ind + '  ', cont)}")
 
-    def call_stmt(self, call, rest, env, ind):
+    def call_stmt(self, call, rest, env, ind, cont):
         p = ind
         f = call.func
         if isinstance(f, ast.Name) and f.id in self.known and not self.known[f.id][2]:
             lean, kinds, _ = self.known[f.id]
-            return self.bind(call, rest, env, ind, lean, kinds)
+            return self.bind(call, rest, env, ind, lean, kinds, cont)
+        if isinstance(f, ast.Name) and f.id in self.helpers:
+            return self.inline(call, env, ind, lambda ret, ind2: self.block(rest, env, ind2, cont))
         if isinstance(f, ast.Attribute):
             k, t = self.val(f.value, env)
             if f.attr == "remove_done_callback" and k == "fut" and len(call.args) == 1 and not call.keywords:
                 ck, ct = self.val(call.args[0], env)
                 if ck != "wakeup":
                     raise Unsupported("remove_done_callback of something that is not the task's __wakeup")
-                return f"{p}let s := removeDoneCallback s {t} {ct}\n{self.block(rest, env, ind)}"
+                return f"{p}let s := removeDoneCallback s {t} {ct}\n{self.block(rest, env, ind, cont)}"
             if f.attr == "call_soon" and k == "loop" and len(call.args) == 2:
                 for kw in call.keywords:
                     if kw.arg != "context" or self.val(kw.value, env)[0] != "ctxt":
@@ -362,13 +445,13 @@ class Fn:
                 ak, at = self.val(call.args[1], env)
                 if ck != "step" or ak != "exc":
                     raise Unsupported(f"call_soon({ck}, {ak}): only (task.__step, exception) is modelled")
-                return f"{p}let s := callSoon s (Handle.step {ct} (some {at}))\n{self.block(rest, env, ind)}"
+                return f"{p}let s := callSoon s (Handle.step {ct} (some {at}))\n{self.block(rest, env, ind, cont)}"
             if f.attr == "queue_insert_pos" and k == "schedloop" and len(call.args) == 2 and not call.keywords:
                 hk, ht = self.val(call.args[0], env)
                 pk, pt = self.val(call.args[1], env)
                 if hk != "handle" or pk != "nat":
                     raise Unsupported(f"queue_insert_pos({hk}, {pk})")
-                return f"{p}let s := queueInsertPos s {ht} {pt}\n{self.block(rest, env, ind)}"
+                return f"{p}let s := queueInsertPos s {ht} {pt}\n{self.block(rest, env, ind, cont)}"
         raise Unsupported(f"call statement {ast.dump(call)[:90]}")
 
     def await_(self, e, rest, env, ind):
@@ -406,7 +489,7 @@ def generate(src: Path) -> dict:
         msg = str(e).replace("-/", "- /")
         return {"Interrupt.lean": "-- GENERATED by translator/interrupt2lean.py — TRANSLATION FAILED\n"
                 f"/- {msg} -/\nimport Asynkit.Model.KernelPrims\nnamespace Asynkit.Gen.Intr\n"
-                "def taskThrow := unsupported_python_construct_see_comment_above\nend Asynkit.Gen\n"}
+                "def taskThrow := unsupported_python_construct_see_comment_above\nend Asynkit.Gen.Intr\n"}
 
 
 def _generate(src: Path) -> dict:
@@ -425,7 +508,7 @@ def _generate(src: Path) -> dict:
     a = [x.arg for x in fr.args.args]
     if len(a) != 3:
         raise Unsupported("_task_reinsert signature")
-    reinsert = Fn({}, consts).block(_doc_free(fr), {a[0]: ("schedloop", "()"), a[1]: ("task", "task"),
+    reinsert = Fn({}, consts, module=stree).top(_doc_free(fr), {a[0]: ("schedloop", "()"), a[1]: ("task", "task"),
                                                     a[2]: ("nat", "pos")}, "  ")
     # scheduling.task_switch(task, insert_pos=None): synchronous prefix
     fs = _find(stree, "task_switch")
@@ -434,14 +517,14 @@ def _generate(src: Path) -> dict:
         raise Unsupported("task_switch signature")
     known = {"_task_reinsert": ("taskReinsert", ["schedloop", "task", "nat"], False)}
     known["_task_reinsert"] = ("taskReinsert", [None, "task", "nat"], False)
-    switch = Fn(known, consts, result="susp").block(
+    switch = Fn(known, consts, result="susp", module=stree).top(
         _doc_free(fs), {a[0]: ("task", "task"), a[1]: ("optnat", "insert_pos")}, "  ")
     # interrupt.task_throw(task, exception)
     ft = _find(itree, "task_throw")
     a = [x.arg for x in ft.args.args]
     if len(a) != 2 or isinstance(ft, ast.AsyncFunctionDef):
         raise Unsupported("task_throw signature")
-    throw = Fn({}, consts).block(_doc_free(ft), {a[0]: ("task", "task"), a[1]: ("exc", "exception")}, "  ")
+    throw = Fn({}, consts, module=itree).top(_doc_free(ft), {a[0]: ("task", "task"), a[1]: ("exc", "exception")}, "  ")
     # interrupt.task_interrupt(task, exception): synchronous prefix
     fi = _find(itree, "task_interrupt")
     a = [x.arg for x in fi.args.args]
@@ -449,7 +532,7 @@ def _generate(src: Path) -> dict:
         raise Unsupported("task_interrupt signature")
     known2 = {"task_throw": ("taskThrow", ["task", "exc"], False),
               "task_switch": ("taskSwitchPrefix", ["task", "optnat"], True)}
-    intr = Fn(known2, consts, result="susp").block(
+    intr = Fn(known2, consts, result="susp", module=itree).top(
         _doc_free(fi), {a[0]: ("task", "task"), a[1]: ("exc", "exception")}, "  ")
 
     text = f"""-- GENERATED by translator/interrupt2lean.py from src/asynkit/experimental/interrupt.py and
